@@ -222,6 +222,12 @@ func validConfigs(thorough bool) []ValidCfg {
 			}
 		}
 	}
+	// a TTL of 2^33 s (272 years: expiry instants lie beyond what UnixNano can represent), no big time steps
+	for _, gc := range []int{-1, 0} {
+		for _, auto := range []bool{false, true} {
+			out = append(out, ValidCfg{TTL: 1 << 33, GC: gc, Auto: auto, MaxAdvances: 3, MaxMacros: 1, Ops: []int{0, 1, 3, 4, 6, 8}, HugeTTL: true})
+		}
+	}
 	// deep search under the shape abstraction (reaches wrapped, grown and shrunk rings far beyond the depth
 	// the exact search can afford)
 	for _, ttl := range []int{2, 3} {
@@ -239,7 +245,7 @@ func validConfigs(thorough bool) []ValidCfg {
 }
 
 func validCheck(prop, which string) *sqrun.Check {
-	return &sqrun.Check{ID: prop, QuickBudget: 100, ThoroughBudget: 900,
+	return &sqrun.Check{ID: prop, QuickBudget: 150, ThoroughBudget: 900,
 		Run: func(c *sqrun.Ctx) *sqrun.Outcome {
 			var states, trans, probes int64
 			exhaustive := true
@@ -270,6 +276,8 @@ func validCheck(prop, which string) *sqrun.Check {
 					} else if cfg.TTL == 3 && cfg.GC > 4 {
 						d = 15 // the widest horizon (past instants up to 3 ticks back are told apart): a shallower bound
 					}
+				} else if cfg.HugeTTL {
+					d = 5
 				} else if !c.Thorough {
 					if cfg.TTL == 3 {
 						d = depth - 2
@@ -277,6 +285,7 @@ func validCheck(prop, which string) *sqrun.Check {
 						d = depth - 1
 					}
 				}
+				cfg.Depth = d
 				nops := len(ValidOps)
 				if cfg.Ops != nil {
 					nops = len(cfg.Ops)
